@@ -1,6 +1,6 @@
 -------------------------- MODULE RunHistoryTrace --------------------------
 (* Sequences of runs on one real ConsoleApplication, each compared with a fresh application for the same line.
-   event: [kind ("" for a line outside the model's pool), line, shared [status, out, err, calls], fresh [...]]
+   event: [kind ("" for a line outside the model's pool), line, shared [status, out, err, calls], fresh [...], pristine [...]]
    out / err / calls are interned texts (equal ids <=> equal texts).                                          *)
 EXTENDS RunHistory, TraceKit
 VARIABLES tid, l
@@ -14,6 +14,9 @@ TRun == /\ l <= Len(T) /\ l' = l + 1 /\ tid' = tid
         /\ Check(tid, l, "P.history.status", Ev.kind, Ev.shared.status = Ev.fresh.status)
         /\ Check(tid, l, "P.history.output", Ev.kind, Ev.shared.out = Ev.fresh.out /\ Ev.shared.err = Ev.fresh.err)
         /\ Check(tid, l, "P.history.handler_args", Ev.kind, Ev.shared.calls = Ev.fresh.calls)
+        \* ... and with a fresh application in a process that never ran anything (whatever a run leaves behind on classes
+        \* or modules reaches the fresh application of this process too)
+        /\ Check(tid, l, "P.history.pristine", Ev.kind, Ev.shared = Ev.pristine)
         /\ IF Ev.kind \in Kinds
            THEN /\ Note(tid, l, "A.class", StatusClass(Ev.shared) = ModelStatus(Class(Ev.kind, lenient)))
                 /\ last' = [kind |-> Ev.kind, class |-> Class(Ev.kind, lenient)]
